@@ -60,6 +60,7 @@ type c15Beh struct {
 	W   c15W       `json:"w"`
 	Cfg c15Cfg     `json:"cfg"`
 	Ops [][]string `json:"ops"` // ["A",name,target] | ["R",name,"-"] | ["L","-","-"]
+	Obs string     `json:"obs"` // "noeach": observe without ForEachLink (it rewrites link names inside the shard)
 }
 
 const c15HL = 6 // hash digits logged per name
@@ -694,7 +695,7 @@ func c15FromGen(t *testing.T, e *c15Engine) {
 			t.Fatalf("behaviour %d: %v", i, err)
 		}
 		for _, op := range b.Ops {
-			r.step(op[0], op[1], op[2], false)
+			r.step(op[0], op[1], op[2], b.Obs == "noeach")
 		}
 	}
 }
